@@ -256,6 +256,9 @@ func VerifC11BatchTransform(v *vrt.T) {
 			} else {
 				op, ok := m.(edge.BatchPointMessage)
 				v.Assert(ok, "result is a batch point")
+				if ok {
+					v.Assert(op.Tags()["host"] == "a" && len(op.Tags()) == 1, "a transformed batch point carries the group's tags (not the extra tags of the input point)")
+				}
 				x.check(v, i, op)
 			}
 		}
